@@ -1001,6 +1001,11 @@ void XMLPlatformUtils::removeDotDotSlash(XMLCh* const path
                                          , MemoryManager* const manager)
 {
     XMLSize_t pathLen = XMLString::stringLen(path);
+
+    // Nothing to do for an empty path; the scan below starts at path[1]
+    if (pathLen == 0)
+        return;
+
     XMLCh* tmp1 = (XMLCh*) manager->allocate
     (
         (pathLen+1) * sizeof(XMLCh)
